@@ -74,10 +74,28 @@ func wgPairing(c *an.Ctx, s *sched, rule string) {
 		c.Check(!inLoop, rule, an.Short(wf)+":Wait", w.Pos(), "Wait is outside the scheduling loop", "Wait is inside the scheduling loop")
 	}
 	f = wf
+	var adds []ssa.CallInstruction
+	for _, ci := range an.CallsIn(f, fnWgAdd) {
+		if groupKey(ci.Common().Args[0]) == key {
+			adds = append(adds, ci)
+		}
+	}
 	for _, r := range an.Returns(f) {
 		dom := false
 		for _, w := range waits {
 			if an.Dominates(w, r) {
+				dom = true
+			}
+		}
+		// a return that no registration can reach (an early exit before the scheduling loop) has nothing to wait for
+		if !dom && len(adds) > 0 && (s.outerFn == nil || s.outerFn == f) && s.launchFn == f {
+			reachable := false
+			for _, a := range adds {
+				if an.CanReach(a.Block(), r.Block()) {
+					reachable = true
+				}
+			}
+			if !reachable {
 				dom = true
 			}
 		}
